@@ -348,7 +348,9 @@ def r4(ctx, cfg):
                 want = "the storage of the Deps / DepsMut it was given (`deps.storage`)"
             ctx.ob(R, root, "storage-is-contract-window%s" % _site_tag_stmt(f, bid, i), ok, "storage handed to the contract in %s is %s, expected %s" % (f.key, fmt(so)[:120], want), fn=f,
                    line=st["line"], sample=fmt(so)[:100])
-    ctx.ob(R, "-", "all-four-sites-present", seen_window == set(window) and n_sites >= 4, "Deps construction sites: %d, window sites %s" % (n_sites, sorted(seen_window)),
+    # (a re-typing done by cosmwasm-std itself - `deps.into_empty()` - builds no Deps in this crate: it counts as a re-typing site)
+    n_retyped = len(q.all_calls(F, lambda c: c["key"] in ("cosmwasm_std::DepsMut::into_empty", "cosmwasm_std::Deps::into_empty")))
+    ctx.ob(R, "-", "all-four-sites-present", seen_window == set(window) and n_sites + min(n_retyped, 2) >= 4, "Deps construction sites: %d, window sites %s" % (n_sites, sorted(seen_window)),
            sample="%d sites, windows built by %s" % (n_sites, sorted(x.rsplit("::", 1)[1] for x in seen_window)))
     # Contract entry points are invoked only from the call_* / query_smart closures
     allowed = {"wasm::WasmKeeper::call_execute", "wasm::WasmKeeper::call_instantiate", "wasm::WasmKeeper::call_reply",
